@@ -286,7 +286,9 @@ def impl_lines(cls_name, preserve, levels):
             out.append(f"par {L} {k} ; {cstr(p)}")
         for k, (kind, m) in enumerate(zip(lv["kinds"], lv["mux"])):
             out.append(f"op {L} {k} ; {kind} {mstr(m)}")
-        if cls_name == "ucge":
+        if cls_name == "ucge" and "dc" not in lv:      # _simplify not called although the options ask for no preservation
+            out.append(f"dc {L} NOT-CALLED ;")
+        elif cls_name == "ucge":
             out.append(f"dc {L} {' '.join(map(str, lv['dc']))} ;")
             out.append(f"kept {L} {' '.join(map(str, lv['kept']))} ;")
             out.append(f"mc {L} {' '.join(map(str, lv['mc']))} ;")
@@ -396,7 +398,7 @@ def one_case(ctx, cls_name, n, t, preserve, fam, v, info=None, do_tie=True, do_o
             for lv in levels:
                 check_ucgate_spec(ctx, lv, tol=1e-9 if tol <= 1e-7 else tol)
                 ctx.count("kind:" + "+".join(sorted(set(lv["kinds"]))))
-                if cls_name == "ucge" and lv["dc"]:
+                if cls_name == "ucge" and lv.get("dc"):
                     ctx.count("ucge dont_carry levels")
             op = {"op": "run", "cls": cls_name, "n": n, "t": t, "preserve": bool(preserve),
                   "vre": [fbits(np.real(a)) for a in v], "vim": [fbits(np.imag(a)) for a in v],
@@ -1401,6 +1403,63 @@ def _diversity_call_forms(ctx, pr, r):
                     _diversity_case(ctx, cls_name, n, t, preserve, v, div, "gate-object")
 
 
+def _diversity_flag_forms(ctx, pr, r):
+    """flag-form pass.  Options of UCGInitialize / UCGEInitialize (constructor `opt_params`, static `initialize`):
+      preserve_previous (bool)   True and False as numpy.bool_ and int 1 / 0 (the Python singletons are everywhere else), for
+                                 BOTH classes (each has its own `if self.preserve:`), constructor (tie + oracle) and static
+                                 helper (keyword / positional opt_params, permuted host), n = 1 (no control qubit), 2, 3, 4
+      target_state (int, 0 valid and falsy; numpy integers)
+                                 0, 2^n - 1 and a middle index as int, np.int64, np.int32, np.uint8, with and without
+                                 preserve_previous, same entry points
+    Judged by the property's own observable (column t; with preserve and support >= t the columns below t), tie through
+    the canonical (int t, bool preserve)."""
+    def vec(n, t, preserve):
+        fam = pr.choice(["complex", "real", "supp"]) if preserve else pr.choice(["complex", "zeros", "real", "product"])
+        v, _ = make_vector(r, n, t, fam)
+        if preserve:
+            v = v.copy()
+            v[:t] = 0
+            if not np.any(v):
+                v[2 ** n - 1] = 1
+            v = _norm(v)
+        return v
+
+    def static_div(n, oform, i):
+        qform = ("ints", "ints-positional", "qubits", "none")[i % 4]
+        host = n + 1
+        wires = _div_wires(pr, n, host) if qform != "none" else None
+        return {"gform": "static", "dform": ("c128", "list")[i % 2], "oform": oform, "qform": qform, "wires": wires, "host": host}
+    i = 0
+    for n in (1, 2, 3, 4):
+        N = 2 ** n
+        for cls_name in ("ucg", "ucge"):
+            # (A) type of the preserve_previous flag
+            for oform in ("pres-npbool", "pres-int"):
+                for preserve in (True, False):
+                    ts = sorted({0, 1, N // 2, N - 1} if n <= 3 else {1, N // 2 - 1})
+                    for t in ts:
+                        i += 1
+                        ctx.count(f"flagforms:preserve_previous:{oform[5:]}:{preserve}")
+                        _diversity_case(ctx, cls_name, n, t, preserve, vec(n, t, preserve),
+                                        {"gform": "ctor", "dform": ("c128", "tuple")[i % 2], "oform": oform}, "flagforms")
+                        if (i + n) % 2 == 0:
+                            ctx.count(f"flagforms:preserve_previous:{oform[5:]}:{preserve}")
+                            _diversity_case(ctx, cls_name, n, t, preserve, vec(n, t, preserve), static_div(n, oform, i), "flagforms")
+            # (B), (C) target_state at both ends of its range and in the middle, in every integer form
+            for where, t in (("zero", 0), ("max", N - 1)) + ((("middle", pr.randrange(1, N - 1)),) if n >= 2 else ()):
+                for oform in ("full", "t-int64", "t-int32", "t-uint8"):
+                    if n == 4 and oform == "t-int32":
+                        continue
+                    i += 1
+                    preserve = (i % 3 == 0)
+                    ctx.count(f"flagforms:target_state:{'int' if oform == 'full' else oform[2:]}:{where}")
+                    _diversity_case(ctx, cls_name, n, t, preserve, vec(n, t, preserve),
+                                    {"gform": "ctor", "dform": ("c128", "list")[i % 2], "oform": oform}, "flagforms")
+                    if oform != "full" and (i + n) % 2:
+                        ctx.count(f"flagforms:target_state:{oform[2:]}:{where}")
+                        _diversity_case(ctx, cls_name, n, t, preserve, vec(n, t, preserve), static_div(n, oform, i), "flagforms")
+
+
 def _diversity_run(ctx):
     pr, r = ctx.rng, ctx.nprng()
     ctx.notes.append("diversity cases: amplitudes are exactly 0 or >= 1e-6/sqrt(N) in modulus with generic phases on the light "
@@ -1413,6 +1472,7 @@ def _diversity_run(ctx):
     _diversity_products(ctx, pr, r)
     _diversity_mux_patterns(ctx, pr, r)
     _diversity_call_forms(ctx, pr, r)
+    _diversity_flag_forms(ctx, pr, r)
 
 
 def run(ctx, nmax_tie=None, nmax_or=None, per_t=None):
